@@ -121,7 +121,7 @@ impl FeatureAsStrFn {
                     quote! {
                         /// Returns the name of this element
                         #vis fn #ident_as_str(self) -> &'static str {
-                            use ::core::iter::Iterator;
+                            use ::core::iter::Iterator as _;
                             // Safety: all enums are in that table and thus find will succeed
                             let t = unsafe {
                                 Self::#ident_table_range
